@@ -98,7 +98,145 @@ def shape_for(conf: dict, rng, small=False) -> list[int]:
 
 # --------------------------------------------------------------------------------------------------
 # worker side
+_LIBC = {}
+
+
+def _libc():
+    """glibc's rand()/srand() through ctypes (the very generator the compiled kernels use) + a non-destructive read
+    of its state: `setstate` swaps in a scratch buffer (which makes glibc store the read position in the old one),
+    the old buffer is read, and swapped back."""
+    import ctypes
+
+    if not _LIBC:
+        lib = ctypes.CDLL("libc.so.6")
+        lib.setstate.restype = ctypes.c_void_p
+        lib.setstate.argtypes = [ctypes.c_void_p]
+        lib.initstate.restype = ctypes.c_void_p
+        lib.initstate.argtypes = [ctypes.c_uint, ctypes.c_void_p, ctypes.c_size_t]
+        _LIBC.update(lib=lib, buf=ctypes.create_string_buffer(128), inited=False, ctypes=ctypes)
+    return _LIBC
+
+
+def libc_state_bytes() -> bytes:
+    L = _libc()
+    lib, ct = L["lib"], L["ctypes"]
+    if not L["inited"]:
+        old = lib.initstate(1, L["buf"], 128)
+        L["inited"] = True
+    else:
+        old = lib.setstate(ct.addressof(L["buf"]))
+    if not old:
+        return b"unreadable"
+    raw = ct.string_at(old, 4 * 32)
+    lib.setstate(old)
+    return raw
+
+
+def decode_seed(x):
+    """JSON form of a seed -> the Python object handed to the generator"""
+    import numpy as np
+
+    if isinstance(x, list):
+        return tuple(x)
+    if isinstance(x, dict):
+        f, v = x["form"], x["v"]
+        return {"list": lambda: list(v), "npint64": lambda: np.int64(v), "npuint32": lambda: np.uint32(v),
+                "nparray": lambda: np.array(v, dtype=np.int64), "tuple_np": lambda: tuple(np.int64(a) for a in v),
+                "tuple": lambda: tuple(v), "int": lambda: int(v)}[f]()
+    return x
+
+
+def canon_seed(x):
+    """canonical JSON-able identity of a seed: what numpy's RandomState.seed makes of it (the *form* is kept where a
+    generator may treat it differently: numpy scalars / arrays are not `int` / `tuple` for integerize_seed)"""
+    if isinstance(x, dict):
+        if x["form"] in ("list", "tuple", "tuple_np"):
+            return list(x["v"])
+        if x["form"] == "int":
+            return int(x["v"])
+        return {"form": x["form"], "v": x["v"]}
+    return x
+
+
+def _call_op(mf, op):
+    seed = op["seed"]
+    if isinstance(seed, dict):
+        sd = decode_seed(seed)
+        return RC.run_call(mf, None, False, None, fault=op.get("fault"),
+                           thunk=lambda m: m(tuple(op["shape"]), return_acs=bool(op["acs"]), seed=sd))
+    return RC.run_call(mf, op["shape"], op["acs"], seed, fault=op.get("fault"))
+
+
+def _consumer_thunk(op, mf):
+    """the ways into a generator from outside subsample.py; returns (thunk, nothing else)"""
+    import torch
+
+    k = op["op"]
+    if k == "transform":
+        from direct.data.mri_transforms import CreateSamplingMask
+
+        tr = CreateSamplingMask(mask_func=mf, use_seed=True, return_acs=bool(op["acs"]))
+
+        def thunk(m):
+            smp = tr({"kspace": torch.zeros(*op["kshape"]), "filename": op["filename"]})
+            return [smp["sampling_mask"]] + ([smp["acs_mask"]] if op["acs"] else [])
+        return thunk
+    if k == "apply_mask":
+        import direct.data.transforms as T
+
+        def thunk(m):
+            _, mask = T.apply_mask(torch.zeros(*op["kshape"]), m, seed=decode_seed(op["seed"]), return_mask=True)
+            return [mask]
+        return thunk
+    if k == "body_coil":
+        from direct.data.mri_transforms import EstimateBodyCoilImage
+
+        got = []
+
+        class Proxy:                     # records the ACS mask the transform asked the generator for
+            def __call__(self, *a, **kw):
+                r = mf(*a, **kw)
+                got.append(r)
+                return r
+
+        tr = EstimateBodyCoilImage(Proxy(), backward_operator=lambda ksp, dim: ksp, use_seed=True)
+
+        def thunk(m):
+            tr({"kspace": torch.zeros(*op["kshape"]), "filename": op["filename"]})
+            return list(got)
+        return thunk
+    raise ValueError(k)
+
+
+def _loader(mf, op):
+    """the generator inside DataLoader worker processes (fork: every worker gets its own copy of the object and of all
+    global generators, re-seeded by torch): items of one file must get one mask, whichever worker serves them"""
+    import os
+
+    import torch
+    from direct.data.mri_transforms import CreateSamplingMask
+
+    tr = CreateSamplingMask(mask_func=mf, use_seed=True, return_acs=True)
+
+    class DS(torch.utils.data.Dataset):
+        def __len__(self):
+            return len(op["filenames"])
+
+        def __getitem__(self, i):
+            smp = tr({"kspace": torch.zeros(*op["kshape"]), "filename": op["filenames"][i]})
+            return {"m": smp["sampling_mask"], "a": smp["acs_mask"], "pid": os.getpid()}
+
+    out = []
+    for b in torch.utils.data.DataLoader(DS(), batch_size=None, num_workers=op["workers"], shuffle=False):
+        m, a = b["m"].numpy(), b["a"].numpy()
+        out.append({"mask": RC.sha(m.shape, str(m.dtype), m.tobytes()), "acs": RC.sha(a.shape, str(a.dtype), a.tobytes()),
+                    "pid": int(b["pid"])})
+    return out
+
+
 def job_history(args: dict) -> dict:
+    import copy
+    import pickle
     import random
 
     import numpy as np
@@ -106,11 +244,23 @@ def job_history(args: dict) -> dict:
 
     confs = args["confs"]
     insts: dict[int, object] = {}
+    prov = ["start"]          # which private draw produced the seed of the last kernel run (see snap)
 
     def snap():
         g = RC.global_snapshot()
         g["priv"] = [RC.rng_state_hash(insts[i].rng) if i in insts else f"uncreated-{i}" for i in range(len(confs))]
+        # libc: the bytes of glibc's generator state, qualified by the provenance of the last kernel seed so that two
+        # kernel runs whose *drawn integers* happen to coincide are not taken for the same (symbolic) state
+        g["libc"] = RC.sha(libc_state_bytes(), prov[0])
         return g
+
+    def note_kernels(log):
+        last_draw = None
+        for e in log:
+            if e["kind"] == "draw":
+                last_draw = e["pre"]
+            elif e["kind"] == "kernel":
+                prov[0] = last_draw
 
     initial = snap()
     steps = []
@@ -120,20 +270,33 @@ def job_history(args: dict) -> dict:
         if k == "new":
             insts[op["inst"]] = RC.build(confs[op["inst"]])
         elif k == "call":
-            r = RC.run_call(insts[op["inst"]], op["shape"], op["acs"], op["seed"], fault=op.get("fault"))
+            r = _call_op(insts[op["inst"]], op)
             r.pop("_array", None)
             rec["call"] = r
-        elif k == "transform":
-            # the data pipeline's way into the generator: CreateSamplingMask derives the seed from the file name
-            from direct.data.mri_transforms import CreateSamplingMask
-
-            tr = CreateSamplingMask(mask_func=insts[op["inst"]], use_seed=True, return_acs=bool(op["acs"]))
-
-            def thunk(mf, tr=tr, op=op):
-                smp = tr({"kspace": torch.zeros(*op["kshape"]), "filename": op["filename"]})
-                return [smp["sampling_mask"]] + ([smp["acs_mask"]] if op["acs"] else [])
-
-            rec["call"] = RC.run_call(insts[op["inst"]], None, False, None, thunk=thunk)
+            note_kernels(r["log"])
+        elif k in ("transform", "apply_mask", "body_coil"):
+            # the data pipeline's ways into the generator
+            rec["call"] = RC.run_call(insts[op["inst"]], None, False, None, thunk=_consumer_thunk(op, insts[op["inst"]]))
+            note_kernels(rec["call"]["log"])
+        elif k == "loader":
+            try:
+                rec["items"] = _loader(insts[op["inst"]], op)
+            except Exception as e:  # noqa: BLE001
+                rec["items"] = None
+                rec["err"] = f"{type(e).__name__}: {e}"[:200]
+        elif k == "clone":
+            # deep copy / pickle round trip of a generator object mid-history (DataLoader workers started with
+            # `spawn`, checkpointed transforms, copy.deepcopy of a dataset).  The recording stream is a local class:
+            # hand the object a plain RandomState in the same state for the round trip.
+            src = insts[op["src"]]
+            keep = src.rng
+            plain = np.random.RandomState()
+            plain.set_state(keep.get_state())
+            src.rng = plain
+            try:
+                insts[op["dst"]] = copy.deepcopy(src) if op["how"] == "deepcopy" else pickle.loads(pickle.dumps(src))
+            finally:
+                src.rng = keep
         elif k == "np_draw":
             np.random.rand(op["n"])
         elif k == "np_seed":
@@ -146,6 +309,19 @@ def job_history(args: dict) -> dict:
             [random.random() for _ in range(op["n"])]
         elif k == "py_seed":
             random.seed(op["s"])
+        elif k == "libc_draw":
+            lib = _libc()["lib"]
+            for _ in range(op["n"]):
+                lib.rand()
+        elif k == "libc_seed":
+            _libc()["lib"].srand(op["s"])
+            prov[0] = None
+        elif k == "ssl_fill":
+            # another Cython kernel of the package using the same C generator (direct.ssl): srand(seed), then draws
+            from direct.ssl._gaussian_fill import gaussian_fill
+
+            gaussian_fill(3, 8, 8, 4, 4, 4.0, np.ones((8, 8), dtype=np.int64), np.zeros((8, 8), dtype=np.int64), op["s"])
+            prov[0] = None
         else:
             raise ValueError(k)
         rec["snap"] = snap()
@@ -155,38 +331,76 @@ def job_history(args: dict) -> dict:
 
 # --------------------------------------------------------------------------------------------------
 # parent side
+EDGE_SEEDS = ["zero", "max32", "list", "npint", "tuple1", "tuple100", "bytes", "nparray", "one", "tuple_np", "bigelem"]
+
+
 def _seed_of(kind: str, rng):
+    """JSON form of a seed of the given kind (ints and lists as they are; other forms as {"form", "v"})"""
     if kind == "int":
-        return rng.randrange(0, 2 ** 31)
-    name = "file%d_%d.h5" % (rng.randint(1, 999), rng.randint(0, 40))
-    return list(map(ord, name))
+        return rng.randrange(1, 2 ** 31)
+    if kind == "tuple":
+        name = "file%d_%d.h5" % (rng.randint(1, 999), rng.randint(0, 40))
+        return list(map(ord, name))
+    if kind == "zero":                      # the legal integer seed 0 (falsy!)
+        return 0
+    if kind == "one":
+        return 1
+    if kind == "max32":                     # the largest seed RandomState accepts
+        return 2 ** 32 - 1
+    if kind == "list":                      # a list, not a tuple (kept a list all the way into the call)
+        return {"form": "list", "v": [rng.randrange(0, 2 ** 32) for _ in range(rng.randint(2, 6))]}
+    if kind == "npint":                     # numpy integer scalars (what `sample["slice_no"]`-like values often are)
+        return {"form": rng.choice(["npint64", "npuint32"]), "v": rng.randrange(0, 2 ** 31)}
+    if kind == "tuple1":
+        return [rng.randrange(0, 2 ** 32)]
+    if kind == "tuple100":                  # a long file name
+        return [rng.randrange(32, 127) for _ in range(rng.randint(90, 120))]
+    if kind == "bytes":                     # tuple(b"...")
+        return list(bytes(rng.randrange(0, 256) for _ in range(rng.randint(3, 12))))
+    if kind == "nparray":
+        return {"form": "nparray", "v": [rng.randrange(0, 2 ** 31) for _ in range(3)]}
+    if kind == "tuple_np":                  # a tuple of numpy integers
+        return {"form": "tuple_np", "v": [rng.randrange(0, 2 ** 31) for _ in range(4)]}
+    if kind == "bigelem":                   # elements at the upper limit
+        return [2 ** 32 - 1, 0, 2 ** 32 - 1]
+    raise ValueError(kind)
+
+
+BAD_SEEDS = [1.5, -1, 2 ** 32, [], [-1, 2], [2 ** 32], {"form": "npint64", "v": -3}]     # each is rejected by RandomState.seed
 
 
 def make_history(conf: dict, seedkind: str, rng, idx: int) -> dict:
-    """confs[0] observed generator, confs[1] a second instance of it, confs[2] another generator."""
+    """confs[0] observed generator, confs[1] a second instance of it, confs[2] another generator, [confs[3] an infeasible
+    configuration of the same family,] confs[-1] the slot of a deep copy / pickle round trip of instance 0."""
     others = [g for g in RC.GENERATORS if g != conf["gen"]]
     other = confs_for(rng.choice(others))[0]
+    if rng.random() < 0.4:                 # prefer a generator that runs a Cython kernel (shares libc with the observed one)
+        other = confs_for(rng.choice([g for g in ("Gaussian1D", "Gaussian2D", "VariableDensityPoisson") if g != conf["gen"]]))[0]
     raiser = raiser_for(conf["gen"])
-    confs = [conf, conf, other] + ([raiser] if raiser else [])
+    confs = [conf, conf, other] + ([raiser] if raiser else []) + [conf]
+    CL = len(confs) - 1
     shape = shape_for(conf, rng)
     seed = _seed_of(seedkind, rng)
     fname = "".join(map(chr, seed)) if seedkind == "tuple" else None     # the observed seed IS the ord-tuple of this name
+    static = conf["mode"] == "static" and conf["gen"] not in RC.KT
     ops = [{"op": "new", "inst": 0}, {"op": "new", "inst": 2}] + ([{"op": "new", "inst": 3}] if raiser else [])
-    sizes = {"np": [1, 2, 4, 8, 16, 32], "torch": [1, 2, 4, 8], "py": [1, 2, 4, 8, 16]}
+    sizes = {"np": [1, 2, 4, 8, 16, 32], "torch": [1, 2, 4, 8], "py": [1, 2, 4, 8, 16], "libc": [1, 2, 4, 8]}
     for v in sizes.values():
         rng.shuffle(v)
     n = rng.randint(4, 8)
     kinds = ["other_seed", "unseeded", "other_shape", "acs", "other_gen", "same", "np", "torch", "py", "np", "py", "torch",
-             "bad_shape", "bad_seed", "fault", "fault", "transform_other", "transform_same", "raiser"]
+             "bad_shape", "bad_seed", "fault", "fault", "transform_other", "transform_same", "raiser",
+             "libc", "libc", "ssl_fill", "other_gen", "apply_mask", "body_coil", "clone"]
     has_call0 = has_pert = False
+    cloned = False
     for j in range(n):
         k = rng.choice(kinds)
         if j == 0:
             k = rng.choice(["other_seed", "unseeded", "acs", "same", "other_shape"])
         if j == 1:
-            k = rng.choice(["np", "torch", "py"])
+            k = rng.choice(["np", "torch", "py", "libc"])
         if j == n - 1 and rng.random() < 0.5:
-            k = rng.choice(["fault", "raiser", "transform_same"])      # right before the observed call
+            k = rng.choice(["fault", "raiser", "transform_same", "libc", "ssl_fill"])      # right before the observed call
         if k == "other_seed":
             ops.append({"op": "call", "inst": 0, "shape": shape, "acs": False, "seed": _seed_of(rng.choice(["int", "tuple"]), rng)})
         elif k == "unseeded":
@@ -200,8 +414,8 @@ def make_history(conf: dict, seedkind: str, rng, idx: int) -> dict:
         elif k == "bad_shape":     # malformed: rank too small -> ValueError, nothing may change
             ops.append({"op": "call", "inst": 0, "shape": shape[-2:] if conf["gen"] not in RC.KT else shape[-3:], "acs": False,
                         "seed": seed})
-        elif k == "bad_seed":      # malformed: a float seed is rejected by RandomState.seed
-            ops.append({"op": "call", "inst": 0, "shape": shape, "acs": False, "seed": 1.5})
+        elif k == "bad_seed":      # malformed: rejected by RandomState.seed before the `try` -> nothing may change
+            ops.append({"op": "call", "inst": 0, "shape": shape, "acs": False, "seed": rng.choice(BAD_SEEDS), "bad": True})
         elif k == "fault":         # an exception raised inside `with temp_seed` (at the k-th draw statement)
             ops.append({"op": "call", "inst": 0, "shape": shape, "acs": rng.random() < 0.2,
                         "seed": seed if rng.random() < 0.7 else None, "fault": rng.choice([1, 1, 2])})
@@ -214,23 +428,56 @@ def make_history(conf: dict, seedkind: str, rng, idx: int) -> dict:
             nm = fname if (k == "transform_same" and fname) else "file%d.h5" % rng.randint(1, 9999)
             ops.append({"op": "transform", "inst": 0, "kshape": [rng.choice([1, 4])] + shape, "filename": nm,
                         "acs": rng.random() < 0.5, "same": nm == fname})
+        elif k == "apply_mask":    # direct.data.transforms.apply_mask(kspace, mask_func, seed): followed by the direct call
+            sd = seed if rng.random() < 0.6 else _seed_of(rng.choice(["int", "tuple", "zero"]), rng)
+            ops.append({"op": "apply_mask", "inst": 0, "kshape": [2] + shape, "seed": sd})
+            ops.append({"op": "call", "inst": 0, "shape": shape, "acs": False, "seed": sd, "twin": len(ops) - 1})
+        elif k == "body_coil":     # EstimateBodyCoilImage: ACS mask of the *last three* axes, seed = file name
+            if not static:
+                continue
+            nm = fname if (fname and rng.random() < 0.6) else "file%d.h5" % rng.randint(1, 9999)
+            ops.append({"op": "body_coil", "inst": 0, "kshape": [2] + shape[-3:], "filename": nm})
+            ops.append({"op": "call", "inst": 0, "shape": shape[-3:], "acs": True, "seed": list(map(ord, nm)),
+                        "twin": len(ops) - 1})
+        elif k == "clone":         # copy of instance 0 mid-history; later calls may go to the copy
+            if cloned:
+                continue
+            ops.append({"op": "clone", "src": 0, "dst": CL, "how": rng.choice(["deepcopy", "pickle"])})
+            ops.append({"op": "call", "inst": CL, "shape": shape, "acs": rng.random() < 0.5,
+                        "seed": seed if rng.random() < 0.5 else None})
+            cloned = True
         elif k == "other_gen":
             ops.append({"op": "call", "inst": 2, "shape": shape_for(other, rng, small=True), "acs": False,
                         "seed": seed if rng.random() < 0.5 else None})
+        elif k == "ssl_fill":
+            ops.append({"op": "ssl_fill", "s": rng.randrange(2 ** 20, 2 ** 31)})
+            has_pert = True
         else:
             if not sizes[k]:
                 continue
             if rng.random() < 0.3:
-                ops.append({"op": k + "_seed", "s": rng.randrange(0, 2 ** 31)})
+                ops.append({"op": k + "_seed", "s": rng.randrange(2 ** 20, 2 ** 31)})
             else:
                 ops.append({"op": k + "_draw", "n": sizes[k].pop()})
             has_pert = True
-        if ops[-1]["op"] in ("call", "transform") and ops[-1]["inst"] == 0:
+        if ops[-1]["op"] in ("call", "transform", "apply_mask", "body_coil") and ops[-1].get("inst") == 0:
             has_call0 = True
-    fresh = rng.random() < 0.5
-    if fresh:
+    if idx % 3 == 0:
+        # DataLoader worker processes over samples of two files (one of them the observed file when the seed is a name)
+        nm2 = "file%d.h5" % rng.randint(1, 9999)
+        names = [fname or "vol_%d.h5" % idx, nm2, fname or "vol_%d.h5" % idx, nm2]
+        ops.append({"op": "loader", "inst": 0, "kshape": [2] + shape, "filenames": names, "workers": 2,
+                    "same": bool(fname)})
+        has_pert = True
+    obs_kind = ["reused", "fresh", "clone"][rng.randrange(3)] if rng.random() < 0.9 else "reused"
+    if obs_kind == "fresh":
         ops.append({"op": "new", "inst": 1})
-    obs = 1 if fresh else 0
+        obs = 1
+    elif obs_kind == "clone":
+        ops.append({"op": "clone", "src": 0, "dst": CL, "how": ["deepcopy", "pickle"][idx % 2]})
+        obs = CL
+    else:
+        obs = 0
     # the observed calls, each immediately preceded by the *other* kind of call with *another* seed on the same instance
     # (a per-instance memo of "the last mask" / "the last ACS" must not leak into the next call):
     #   pattern A: mask(a1) ACS(b)* mask(a2) ACS(b)* mask(b)*      pattern B: ACS(a1) mask(b)* ACS(a2) mask(b)* ACS(b)*
@@ -243,8 +490,8 @@ def make_history(conf: dict, seedkind: str, rng, idx: int) -> dict:
         observed.append(len(ops) - 1)
     ops.append({"op": "call", "inst": obs, "shape": shape, "acs": first_acs, "seed": seed})
     observed.append(len(ops) - 1)
-    return {"confs": confs, "ops": ops, "shape": shape, "seed": seed, "seedkind": seedkind, "fresh": fresh,
-            "observed": observed, "pattern": "B" if first_acs else "A",
+    return {"confs": confs, "ops": ops, "shape": shape, "seed": seed, "seedkind": seedkind, "fresh": obs_kind == "fresh",
+            "obs_kind": obs_kind, "observed": observed, "pattern": "B" if first_acs else "A",
             "nontrivial": has_call0 and has_pert and max(shape[:-1]) >= 2, "idx": idx}
 
 
@@ -295,17 +542,23 @@ def _site_index(table: dict, e: dict) -> int:
 
 
 def run_histories(ctx: Ctx, n_per_conf: int, store: dict):
-    wa, wb = RC.Worker(), RC.Worker()
+    # two processes with different hash randomisation: nothing about a seeded mask may depend on `hash()`
+    wa, wb = RC.Worker(extra_env={"PYTHONHASHSEED": "1"}), RC.Worker(extra_env={"PYTHONHASHSEED": "20230917"})
     store.setdefault("histories", [])
     store.setdefault("hangs", [])
     try:
         wa.start()
         wb.start()
         idx = len(store["histories"])
+        nconf = 0
         for gen in RC.GENERATORS:
             for conf in confs_for(gen):
+                nconf += 1
                 for rep in range(n_per_conf):
-                    for seedkind in ("int", "tuple"):
+                    # per configuration: int and file-name seeds, and (every other repetition) one of the edge seeds,
+                    # rotating over configurations and VERIF_SEED so that every run has every kind
+                    edge = EDGE_SEEDS[(nconf + ctx.seed + rep // 2) % len(EDGE_SEEDS)]
+                    for seedkind in (("int", "tuple") if rep % 2 == 0 else (edge, "tuple" if rep % 4 == 1 else "int")):
                         h = make_history(conf, seedkind, ctx.rng, idx)
                         idx += 1
                         try:
@@ -350,7 +603,7 @@ def _events(table, call, reqs: dict):
         elif e["kind"] == "seed":
             ev += [1, _site_index(table, e) if _site_index(table, e) >= 0 else 9999, 0]
         elif e["kind"] == "kernel":
-            ev += [2, 0, 0]
+            ev += [2, _kernel_index(table, e["name"]), reqs.setdefault(("k", e["name"], e.get("args")), len(reqs))]
         elif e["kind"] == "set_state":
             ev += [0, 9999, reqs.setdefault("set_state", len(reqs))]
     return ev
@@ -374,15 +627,45 @@ def _table_groups(table):
     return flat
 
 
+_EV_CODE = {"srand:seed": 0, "srand:other": 1}
+
+
+def _pyx_groups(table):
+    """the generated libc event lists of the .pyx kernels, `-1` terminated (0 srand(seed), 1 other srand, 2 rand)"""
+    flat = []
+    for k in table.get("pyx") or [{"events": ["srand:seed", "rand"]}]:
+        flat += [_EV_CODE.get(e, 2) for e in k.get("events", [])] + [-1]
+    return flat
+
+
+def _kernel_index(table, name: str) -> int:
+    names = [k["name"] for k in table.get("pyx") or []]
+    nm = name.lstrip("_")
+    return names.index(nm) if nm in names else (0 if table.get("skipped") else 99)
+
+
+CONSUMER_SUBS = {"transform": [False, True], "apply_mask": [False], "body_coil": [True]}
+
+
+def _consumer_seed_and_shape(op):
+    """(canonical seed, shape) the consumer hands to the generator"""
+    if op["op"] == "apply_mask":
+        return canon_seed(op["seed"]), op["kshape"][1:]
+    if op["op"] == "body_coil":
+        return list(map(ord, op["filename"])), op["kshape"][-3:]
+    return list(map(ord, op["filename"])), op["kshape"][1:]
+
+
 def correspondence(ctx: Ctx):
     table = _RUN["table"]
     tflat = _table_groups(table)
+    pflat = _pyx_groups(table)
     for h in _RUN["histories"]:
         res = h["res"]
         ninst = len(h["confs"])
         conf_ids = {}
         keys, seeds, reqs = {}, {}, {}
-        groups = [[ninst], tflat]
+        groups = [[ninst], tflat, pflat]
         snaps = [res["initial"]]
         outs = []
         for op, st in zip(h["ops"], res["steps"]):
@@ -390,19 +673,23 @@ def correspondence(ctx: Ctx):
             if k == "new":
                 groups.append([1, op["inst"]])
                 snaps.append(st["snap"])
+            elif k == "clone":
+                groups.append([4, op["src"], op["dst"]])
+                snaps.append(st["snap"])
             elif k == "call":
                 cid = conf_ids.setdefault(json.dumps(h["confs"][op["inst"]], sort_keys=True), len(conf_ids))
                 tag = "fault" if (op.get("fault") and st["call"]["err"] == "RuntimeError") else \
-                    "badseed" if isinstance(op["seed"], float) else None
+                    "badseed" if op.get("bad") else None
                 key = keys.setdefault((cid, tuple(op["shape"]), op["acs"], tag), len(keys))
-                sd = -1 if op["seed"] is None else seeds.setdefault(json.dumps(op["seed"]), len(seeds))
+                sd = -1 if op["seed"] is None else seeds.setdefault(json.dumps(canon_seed(op["seed"])), len(seeds))
                 groups.append([0, op["inst"], key, sd] + _events(table, st["call"], reqs))
                 snaps.append(st["snap"])
                 outs.append(_out_identity(cid, op, st["call"]))
-            elif k == "transform":
-                # one generator call per `with temp_seed` scope the transform opened; seed = ord-tuple of the file name
+            elif k in CONSUMER_SUBS:
+                # one generator call per `with temp_seed` scope the consumer opened
                 cid = conf_ids.setdefault(json.dumps(h["confs"][op["inst"]], sort_keys=True), len(conf_ids))
-                sd = seeds.setdefault(json.dumps(list(map(ord, op["filename"]))), len(seeds))
+                cseed, cshape = _consumer_seed_and_shape(op)
+                sd = -1 if cseed is None else seeds.setdefault(json.dumps(cseed), len(seeds))
                 subs, cur = [], None
                 for e in st["call"]["log"]:
                     if e["kind"] == "scope_seed":
@@ -412,9 +699,10 @@ def correspondence(ctx: Ctx):
                         cur.append(e)
                 if not subs:
                     subs = [[]]
+                flags = CONSUMER_SUBS[k]
                 for n_sub, sub in enumerate(subs):
-                    acs = n_sub == 1
-                    pop = {"shape": op["kshape"][1:], "acs": acs}
+                    acs = flags[min(n_sub, len(flags) - 1)]
+                    pop = {"shape": list(cshape), "acs": acs}
                     masks = st["call"].get("masks") or []
                     pcall = {"err": st["call"]["err"] if n_sub == len(subs) - 1 else None,
                              "mask": masks[n_sub] if n_sub < len(masks) else None, "log": sub}
@@ -422,8 +710,17 @@ def correspondence(ctx: Ctx):
                     groups.append([0, op["inst"], key, sd] + _events(table, pcall, reqs))
                     snaps.append(st["snap"])
                     outs.append(_out_identity(cid, pop, pcall))
+            elif k == "loader":
+                # in the parent process a DataLoader is one draw from the global torch generator (its base seed);
+                # the generator calls happen in the workers' copies
+                groups.append([2, 1, reqs.setdefault(("loader", len(reqs)), len(reqs))])
+                snaps.append(st["snap"])
+            elif k == "ssl_fill":
+                # srand(s) + the draws of another kernel: an opaque new libc state
+                groups.append([3, 3, seeds.setdefault(json.dumps(["ssl", op["s"]]), len(seeds))])
+                snaps.append(st["snap"])
             else:
-                which = {"np": 0, "torch": 1, "py": 2}[k.split("_")[0]]
+                which = {"np": 0, "torch": 1, "py": 2, "libc": 3}[k.split("_")[0]]
                 if k.endswith("_draw"):
                     groups.append([2, which, reqs.setdefault(("g", op["n"]), len(reqs))])
                 else:
@@ -431,11 +728,11 @@ def correspondence(ctx: Ctx):
                 snaps.append(st["snap"])
         ans = "ok " + " | ".join(" ".join(map(str, g)) for g in [
             _number([s["np"] for s in snaps]), _number([s["torch"] for s in snaps]), _number([s["py"] for s in snaps]),
-            _number([p for s in snaps for p in s["priv"]]), _number(outs)])
+            _number([p for s in snaps for p in s["priv"]]), _number(outs), _number([s["libc"] for s in snaps])])
         conf = h["confs"][0]
         yield {"line": line("hist", *groups), "impl": (lambda a=ans: a), "nontrivial": h["nontrivial"],
                "key": ("hist", h["idx"], json.dumps(h["ops"], sort_keys=True)),
-               "bucket": f"hist/{conf['gen']}/{conf['mode']}/{h['seedkind']}/{'fresh' if h['fresh'] else 'reused'}/{h.get('pattern', '')}"}
+               "bucket": f"hist/{conf['gen']}/{conf['mode']}/{h['seedkind']}/{h.get('obs_kind', 'fresh' if h['fresh'] else 'reused')}/{h.get('pattern', '')}"}
         # ACS branch vs mask branch of the observed call (last two steps)
         _, mi, ai = _observed(h)
         mask_call, acs_call = res["steps"][mi]["call"], res["steps"][ai]["call"]
@@ -455,9 +752,17 @@ def correspondence(ctx: Ctx):
             return out
 
         ta, tm = trace(acs_call), trace(mask_call)
-        vals = [(e["pre"], e["req"]) for c in (acs_call, mask_call) for e in c["log"] if e["kind"] == "draw"]
+        vals = []
+        for c in (acs_call, mask_call):
+            last = None
+            for e in c["log"]:
+                if e["kind"] == "draw":
+                    last = (e["pre"], e["req"])
+                    vals.append(last)
+                elif e["kind"] == "kernel":      # the result of a kernel run: a function of its seed (the last draw) and arguments
+                    vals.append(("kernel", last, e["name"], e.get("args")))
         ans2 = "ok " + " | ".join(" ".join(map(str, g)) for g in [[1 if tm[:len(ta)] == ta else 0], ta, tm, _number(vals)])
-        yield {"line": line("acs", tflat, [sd], lead, rest), "impl": (lambda a=ans2: a), "nontrivial": len(tm) > len(ta),
+        yield {"line": line("acs", tflat, pflat, [sd], lead, rest), "impl": (lambda a=ans2: a), "nontrivial": len(tm) > len(ta),
                "key": ("acs", h["idx"], conf["gen"], conf["mode"], tuple(h["shape"]), json.dumps(h["seed"])),
                "bucket": f"acs/{conf['gen']}/{conf['mode']}"}
 
@@ -472,7 +777,7 @@ def _check_history(h, table):
            "observed": h.get("observed")}
     prev = res["initial"]
     for op, st in zip(h["ops"], res["steps"]):
-        if op["op"] in ("call", "transform"):
+        if op["op"] in ("call", "transform", "apply_mask", "body_coil"):
             for stream in ("np", "torch", "py"):
                 if st["snap"][stream] != prev[stream]:
                     yield Violation(f"global-{stream}-touched/{h['confs'][op['inst']]['gen']}",
@@ -517,12 +822,57 @@ def _check_history(h, table):
             yield Violation(f"transform-outcome-differs/{tag}",
                             f"CreateSamplingMask: {st['call']['err']} but the direct seeded call: {obs_mask['err']}",
                             dict(rep, failing_op=op))
+    # the other consumers (apply_mask, EstimateBodyCoilImage): the mask they obtained is the one of the direct call with
+    # the seed they were given / the file-name tuple (the direct call follows them in the history)
+    for i, (op, st) in enumerate(zip(h["ops"], res["steps"])):
+        if op.get("twin") is None:
+            continue
+        cop, cst = h["ops"][op["twin"]], res["steps"][op["twin"]]
+        a, b = cst["call"], st["call"]
+        if (a["err"] is None) != (b["err"] is None) or (a["err"] is None and (a.get("masks") or [None])[-1] != b.get("mask")):
+            yield Violation(f"consumer-mask-differs/{cop['op']}/{tag}",
+                            f"{cop['op']}: the mask obtained through this call site ({a['err'] or 'ok'}) is not the one of "
+                            f"mask_func(shape, seed) with the same seed ({b['err'] or 'ok'})",
+                            dict(rep, failing_op=cop, direct_call=op))
+    # DataLoader workers: one mask per file whichever worker process serves the item, equal to the direct call's
+    for op, st in zip(h["ops"], res["steps"]):
+        if op["op"] != "loader":
+            continue
+        items = st.get("items")
+        if items is None:
+            yield Violation(f"loader-fails/{tag}", f"a DataLoader over CreateSamplingMask samples raised: {st.get('err')}",
+                            dict(rep, failing_op=op))
+            continue
+        by_name: dict = {}
+        for nm, it in zip(op["filenames"], items):
+            by_name.setdefault(nm, []).append(it)
+        for nm, its in by_name.items():
+            if len({(it["mask"], it["acs"]) for it in its}) > 1:
+                yield Violation(f"worker-masks-differ/{tag}",
+                                f"two samples of file {nm!r} got different masks in DataLoader workers "
+                                f"(pids {[it['pid'] for it in its]})", dict(rep, failing_op=op, items=its))
+        if op.get("same") and obs_mask["err"] is None and obs_acs["err"] is None:
+            it = items[0]
+            if it["mask"] != obs_mask["mask"] or it["acs"] != obs_acs["mask"]:
+                yield Violation(f"worker-mask-differs-from-direct-call/{tag}",
+                                "the mask a DataLoader worker made for this file is not the one of the direct seeded call",
+                                dict(rep, failing_op=op, items=items[:1]))
+    # the C generator: a call of a generator without a Cython kernel must leave it alone (that it is *not* restored after a
+    # kernel run is the documented partial; that it never influences a mask is what the bitwise comparisons above check)
+    prev = res["initial"]
+    for op, st in zip(h["ops"], res["steps"]):
+        if op["op"] == "call" and st["snap"].get("libc") != prev.get("libc") and \
+                not any(e["kind"] == "kernel" for e in st["call"]["log"]):
+            yield Violation(f"libc-touched-without-kernel/{h['confs'][op['inst']]['gen']}",
+                            "a generator call that ran no Cython kernel changed the state of libc's rand()",
+                            dict(rep, failing_op=op))
+        prev = st["snap"]
     # repeated identical seeded calls inside the history
     seen = {}
     for op, st in zip(h["ops"], res["steps"]):
         if op["op"] == "call" and op["seed"] is not None:
-            k = (json.dumps(h["confs"][op["inst"]], sort_keys=True), tuple(op["shape"]), op["acs"], json.dumps(op["seed"]),
-                 op.get("fault"))
+            k = (json.dumps(h["confs"][op["inst"]], sort_keys=True), tuple(op["shape"]), op["acs"],
+                 json.dumps(canon_seed(op["seed"])), op.get("fault"))
             v = (st["call"]["err"], st["call"].get("mask"))
             if k in seen and seen[k] != v:
                 yield Violation(f"seeded-mask-depends-on-history/{tag}", "two identical seeded calls in one history differ",
@@ -547,20 +897,23 @@ def oracle(ctx: Ctx, deep: bool = False):
     errs: dict = {}
     for h in store["histories"]:
         for op, st in zip(h["ops"], h["res"]["steps"]):
-            if op["op"] == "transform":
-                kk = "transform:" + (st["call"]["err"] or "ok")
+            if op["op"] in CONSUMER_SUBS:
+                kk = op["op"] + ":" + (st["call"]["err"] or "ok")
                 errs[kk] = errs.get(kk, 0) + 1
+            if op["op"] in ("loader", "clone", "ssl_fill", "libc_draw", "libc_seed"):
+                errs[op["op"]] = errs.get(op["op"], 0) + 1
             if op["op"] == "call":
                 k = st["call"]["err"] or "ok"
-                malformed = op["seed"] == 1.5 or len(op["shape"]) < (4 if h["confs"][op["inst"]]["gen"] in RC.KT else 3)
-                cls = "fault-injected:" if op.get("fault") else "infeasible-raiser:" if op["inst"] == 3 else \
+                malformed = op.get("bad") or len(op["shape"]) < (4 if h["confs"][op["inst"]]["gen"] in RC.KT else 3)
+                cls = "fault-injected:" if op.get("fault") else \
+                    "infeasible-raiser:" if (len(h["confs"]) == 5 and op["inst"] == 3) else \
                     "malformed:" if malformed else "valid:"
                 errs[cls + k] = errs.get(cls + k, 0) + 1
         conf = h["confs"][0]
         ctx.count(("oracle", h["idx"], json.dumps(h["ops"], sort_keys=True)), h["nontrivial"],
                   sample={"gen": conf["gen"], "mode": conf["mode"], "shape": h["shape"], "seed": h["seed"],
                           "ops": [o["op"] for o in h["ops"]]},
-                  bucket=f"oracle/{conf['gen']}/{conf['mode']}")
+                  bucket=f"oracle/{conf['gen']}/{conf['mode']}/{h['seedkind']}/{h.get('obs_kind', '')}")
         if h["res"]["steps"][_observed(h)[1]]["call"]["err"]:
             n_err += 1
         yield from _check_history(h, table)
